@@ -1092,11 +1092,16 @@ def compile_comprehension(compiler, expr, root, parts, final):
                 generators[-1].ifs.append(v.expr)
             else:
                 raise ValueError("can't happen")
+        # Use `force_expr` so that a form with no expression of its
+        # own, such as `(do)` or `(eval-when-compile …)`, counts as `None`.
         if node_class is asty.DictComp:
             return asty.DictComp(
-                expr, key=key.expr, value=(elt and elt.expr), generators=generators
+                expr,
+                key=key.force_expr,
+                value=(elt and elt.force_expr),
+                generators=generators,
             )
-        return node_class(expr, elt=elt.expr, generators=generators)
+        return node_class(expr, elt=elt.force_expr, generators=generators)
 
 
 # ------------------------------------------------
